@@ -7,3 +7,4 @@ import JugModel.Props.C15
 #print axioms Jug.C15.checkWalk_complete
 #print axioms Jug.C15.check_iff
 #print axioms Jug.C15.classifier_table_matches
+#print axioms Jug.C15.graph_classifier_eq
